@@ -11,6 +11,9 @@ from mcheck import MUnit, approx_eq, fnum, native, sqrt, zval
 from mirsym import Num, Opaque, PanicPath, Ref, RVec, Struct, Tuple, BoundHit
 from models_nd import ND, obj_array
 
+from fractions import Fraction
+ALPHA_F32 = Num(Fraction(float(np.float32(0.01))))
+
 R_ASSUME = ["R-mode: f32 values are mathematical reals; rounding, overflow and NaN are outside this obligation",
             "sqrt is an uninterpreted function (only congruence is used)"]
 
@@ -198,13 +201,17 @@ def c13_trackers(out, tier, seed):
             init = [[ctx.fresh_real("init") for _ in range(p)] for _ in range(m)]
             steps = [[[ctx.fresh_real("x") for _ in range(p)] for _ in range(m)] for _ in range(k)]
             singles = []
+            phist = []
             for c in range(m):
                 tr = eng.call_fn(eng.find_fn("ChainTracker::new"), [p, Ref.to(RVec(list(init[c])))])
                 cell = Ref.to(tr)
+                hist = []
                 for t in range(k):
                     r = eng.call_fn(eng.find_fn("ChainTracker::step"), [cell, Ref.to(RVec(list(steps[t][c])))])
                     if r.variant != "Ok":
                         raise PanicPath("ChainTracker::step returned Err")
+                    hist.append(eng.call_fn(eng.find_fn("ChainTracker::stats"), [cell]).get("p_accept"))
+                phist.append(hist)
                 singles.append(cell)
             stats = [eng.call_fn(eng.find_fn("ChainTracker::stats"), [s]) for s in singles]
             cr = eng.call_fn("collect_rhat", [Ref.to(RVec([Ref.to(s) for s in stats]))])
@@ -215,13 +222,13 @@ def c13_trackers(out, tier, seed):
                 if r.variant != "Ok":
                     raise PanicPath("MultiChainTracker::step returned Err")
             mr = eng.call_fn(eng.find_fn("MultiChainTracker::rhat"), [multi])
-            return init, steps, stats, cr, mr
+            return init, steps, stats, cr, mr, phist
         for ctx, res in eng.explore(run):
             u.paths += 1
             if isinstance(res, Exception):
                 out.inconclusive.append("c13_trackers %s: %r" % ((m, p, k), res))
                 continue
-            init, steps, stats, cr, mr = res
+            init, steps, stats, cr, mr, phist = res
             inst = "chains=%d params=%d updates=%d" % (m, p, k)
 
             def replay(model, m=m, p=p, k=k, init=init, steps=steps, which="collect_rhat"):
@@ -229,6 +236,23 @@ def c13_trackers(out, tier, seed):
             for c in range(m):
                 st = stats[c]
                 u.holds(ctx, "tracker count equals the number of updates", st.get("n") == k, None, inst)
+                # acceptance rate: EMA (weight ALPHA = the f32 nearest 0.01) of 'state differs from previous state'
+                prev = init[c]
+                for t in range(k):
+                    cur = steps[t][c]
+                    moved = z3.Or([cur[d].z() != prev[d].z() for d in range(p)])
+                    pa = Num.of(phist[c][t])
+                    rp = lambda mo, w="p_accept": replay(mo, which=w)  # noqa: E731
+                    u.holds(ctx, "the acceptance rate lies in [0,1]", z3.And(pa.z() >= 0, pa.z() <= 1), rp, inst)
+                    if t == 0:
+                        u.holds(ctx, "first update: acceptance rate 0 without a move, positive with one",
+                                z3.And(z3.Implies(z3.Not(moved), pa.z() == 0), z3.Implies(moved, pa.z() > 0)), rp, inst)
+                    else:
+                        ind = z3.If(moved, z3.RealVal(1), z3.RealVal(0))
+                        want = (Num(1) - ALPHA_F32) * Num.of(phist[c][t - 1]) + ALPHA_F32 * Num(ind)
+                        u.holds(ctx, "acceptance rate is the exponential moving average (weight 0.01) of the move indicator",
+                                pa.z() == want.z(), rp, inst)
+                    prev = cur
                 for d in range(p):
                     xs = [steps[t][c][d] for t in range(k)]
                     mu = mean(xs)
@@ -263,6 +287,11 @@ def replay_trackers(model, init, steps, m, p, k, which):
     for j in range(4):
         cands.append(([0.0] * (m * p), [[round(rnd.uniform(-2, 2), 2) + 3.0 * ci for ci in range(m) for _ in range(p)]
                                         for _ in range(k)]))
+    if which == "p_accept":  # repeats of the initial state followed by moves, and moves followed by repeats
+        base = [1.0 + i for i in range(m * p)]
+        cands.append((base, [list(base) for _ in range(k - 1)] + [[v + 1.0 for v in base]]))
+        cands.append((base, [[v + 1.0 for v in base]] + [[v + 1.0 for v in base] for _ in range(k - 1)]))
+        cands.append((base, [list(base)] + [[v + 1.0 + t for v in base] for t in range(k - 1)]))
     tried = []
     for ini, sts in cands:
         ini = [float(np.float32(v)) for v in ini]
@@ -281,6 +310,8 @@ def replay_trackers(model, init, steps, m, p, k, which):
                     continue
                 rh = (vp_s / w_s) ** 0.5
                 spec["rhat[%d]" % d] = rh
+                if which == "p_accept":
+                    continue
                 if which in ("collect_rhat", "multi_rhat"):
                     got = res[which][d]
                     got = float(got.replace("NaN", "nan")) if isinstance(got, str) else got
@@ -296,6 +327,27 @@ def replay_trackers(model, init, steps, m, p, k, which):
                         want = mu if which == "mean" else var
                         if got == got and not approx_eq(got, want, 2e-3, 1e-3):
                             bad.append(prof)
+        if which == "p_accept":
+            al = float(np.float32(0.01))
+            for prof, res in nat.items():
+                if not isinstance(res, dict) or "p_hist" not in res:
+                    continue
+                for c in range(m):
+                    prev = ini[c * p:(c + 1) * p]
+                    for t in range(k):
+                        cur = sts[t][c * p:(c + 1) * p]
+                        moved = any(a != b for a, b in zip(cur, prev))
+                        got = res["p_hist"][c][t]
+                        if not (0.0 <= got <= 1.0):
+                            bad.append(prof)
+                        if t == 0:
+                            if (not moved and got != 0.0) or (moved and not got > 0.0):
+                                bad.append(prof)
+                        else:
+                            want = (1 - al) * res["p_hist"][c][t - 1] + al * (1.0 if moved else 0.0)
+                            if not approx_eq(got, want, 1e-5, 1e-6):
+                                bad.append(prof)
+                        prev = cur
         tried.append({"case": case, "native": nat, "spec": spec})
         if bad:
             return True, {"case": case, "native": nat, "spec": spec, "which": which, "reproduced_in": sorted(set(bad))}
